@@ -83,6 +83,12 @@ def backupLine (st : BkRun) (lineNo : Nat) (line : String) : Except String (BkRu
           (match lastOK with
            | some u => if u.tms ≥ lastWrite && u.hash != get "final" then [s!"PROPFAIL C17 converges {tag} ups={get "ups"} final={get "final"}"] else []
            | none => []) ++
+          -- once writes have stopped for long enough (one round for the pending change, one more per
+          -- scripted failure, one spare) the newest successful backup is the current file
+          (let nfail := (script.filter (· == "fail")).length
+           if cancel ≥ lastWrite + (nfail + 2) * (60000 + latency) + latency + 1 &&
+              (lastOK.map (·.hash)) != some (get "final")
+           then [s!"PROPFAIL C17 converges_when_quiet {tag} ups={get "ups"} final={get "final"}"] else []) ++
           -- a failed attempt is retried one period later unless the task was cancelled first
           ((ups.zipIdx.filter fun (u, i) => !u.ok && ups[i + 1]?.isNone && u.tms + latency + 60000 < cancel).map fun (u, _) =>
             s!"PROPFAIL C17 retry {tag} failed_at={u.tms} ups={get "ups"}") ++
